@@ -110,7 +110,7 @@ def mach_units(func, tier, n2_params=None, n3=True, weight=4, pbits2=4, extra=No
         for sc in CURATED3:
             units.append(U(MACH, func, weight=2, n=3, schema=sc, **extra))
         if tier == "thorough":
-            for pv in range(0, 1024, 16):
+            for pv in range(0, 1024, 64):
                 units.append(U(MACH, func, weight=20, n=3, schema=-1, pbits=10, pval=pv, mut=0, **extra))
     return units
 
@@ -124,7 +124,7 @@ MACH_ASSUME = [
     "fork mode: every symbolic branch forks the path (feasibility by z3), assertions are decided on each path",
 ]
 MACH_BOUNDS = {"states": "2 user states + Exception with every schema (all Require/Add/Remove bits symbolic); 3 user states for 8 curated schemas "
-               "(thorough: 64 of 1024 shards of the 18-bit symbolic schema space, Add mutations)",
+               "(thorough: 16 of 1024 shards of the 18-bit symbolic schema space, Add mutations, each shard capped at 20000 paths - a capped shard is reported as INCONCLUSIVE, i.e. a reduced bound)",
                "pre_state": "every consistent active set", "mutation": "Add / Remove / Set over every non-empty called set",
                "handlers": "one map binding with every handler name; negotiation results = symbolic veto table"}
 MACH_OUT = ["more than 3 user states", "several bindings / StatePrefix / struct handlers found by reflection", "handler timeouts and panics (C08)",
